@@ -390,13 +390,19 @@ def cbName (s : Stack) : Cb → String
   | .taskStep tid => taskName s tid
   | .sleepDone _ => "sleep"
 
-def fmtState (s : Stack) (from_ : Nat) : String :=
+def fmtState (s : Stack) (from_ : Nat) (slogFrom : Nat := 0) : String :=
   let outs := (s.outs.drop from_).map fmtOut
   let ready := s.loop.ready.map fun r => cbName s r.cb
   let timers := (s.loop.timers.map fun t => (t.deadline, t.seq, cbName s t.cb))
   let timers := (timers.toArray.qsort (fun a b => a.1 < b.1 || (a.1 == b.1 && a.2.1 < b.2.1))).toList
+  let tm := fun (t : Option Nat) => match t with | some q => s!"{q}" | none => "~"
+  let found := s.found.map fun p => s!"{p.1}:" ++ "|".intercalate (p.2.map fun e => s!"{fmtSvcKey e.key}#{tm e.timer}")
+  let subs := (s.instances.zipIdx.map fun (inst, i) =>
+    s!"{i}>" ++ ";".intercalate (inst.subs.map fun p => s!"{p.1}:" ++ "|".intercalate (p.2.map fun e => s!"{fmtSubKey e.key}#{tm e.timer}")))
+  let slog := (s.storeLog.drop slogFrom).map fun (o, k, a) => s!"{if o then "+" else "-"}{fmtSvcKey k}@{a}"
   s!"now={s.loop.now} outs=[{" ; ".intercalate outs}] ready=[{",".intercalate ready}] timers=[" ++
-    ",".intercalate (timers.map fun (d, q, n) => s!"{q}@{d}:{n}") ++ "]"
+    ",".intercalate (timers.map fun (d, q, n) => s!"{q}@{d}:{n}") ++ "]" ++
+    s!" found=[{";".intercalate found}] subs=[{" ".intercalate subs}] slog=[{",".intercalate slog}]"
 
 abbrev Sessions := List (String × Stack)
 
@@ -414,23 +420,23 @@ def handleStack (ss : Sessions) (toks : List String) : Option (Sessions × Strin
     let s ← sessGet ss name
     let (x, []) ← pInput r | none
     let s' := s.applyInput x
-    pure (sessSet ss name s', "ok " ++ fmtState s' s.outs.length)
+    pure (sessSet ss name s', "ok " ++ fmtState s' s.outs.length s.storeLog.length)
   | ["stk.run", name] => do
     let s ← sessGet ss name
     match s.step .run with
-    | some s' => pure (sessSet ss name s', "ok " ++ fmtState s' s.outs.length)
+    | some s' => pure (sessSet ss name s', "ok " ++ fmtState s' s.outs.length s.storeLog.length)
     | none => pure (ss, "disabled")
   | ["stk.fire", name, q] => do
     let s ← sessGet ss name
     let q ← q.toNat?
     match s.step (.fire q) with
-    | some s' => pure (sessSet ss name s', "ok " ++ fmtState s' s.outs.length)
+    | some s' => pure (sessSet ss name s', "ok " ++ fmtState s' s.outs.length s.storeLog.length)
     | none => pure (ss, "disabled")
   | ["stk.adv", name, t] => do
     let s ← sessGet ss name
     let t ← t.toNat?
     match s.step (.adv t) with
-    | some s' => pure (sessSet ss name s', "ok " ++ fmtState s' s.outs.length)
+    | some s' => pure (sessSet ss name s', "ok " ++ fmtState s' s.outs.length s.storeLog.length)
     | none => pure (ss, "disabled")
   | _ => none
 
